@@ -114,7 +114,7 @@ class ProtocolDriver:
     def done(self):
         return self.steps >= self.max_steps or not self.enabled()
 
-    def step(self, force=None):
+    def step(self, force=None, force_tid=None):
         """Performs one protocol step and returns the event (or None)."""
         acts = self.enabled()
         if not acts or self.steps >= self.max_steps:
@@ -137,10 +137,10 @@ class ProtocolDriver:
         if act == "suggest":
             ev = self._do_suggest()
         elif act == "report":
-            tid = self._pick_running()
+            tid = force_tid if force_tid in self.running else self._pick_running()
             ev = self._do_report(tid)
         else:
-            tid = self._pick_running()
+            tid = force_tid if force_tid in self.running else self._pick_running()
             ev = self._do_fail(tid)
         self.trace.append(ev)
         return ev
